@@ -112,6 +112,16 @@ func c12Ops() []mapOp {
 			// a range without a loop variable runs once per key that is still present when its turn comes
 			return []pt.Stmt{pt.For{Range: []pt.Expr{m}, Body: []pt.Stmt{pt.Print(pt.S("turn")), pt.CallStmt{C: pt.C("del", m, pt.S(k))}}}}
 		})
+		for _, k2 := range c12Keys {
+			if k2 == k {
+				continue
+			}
+			k2 := k2
+			add("range-del-"+k+"-insert-"+k2, func(mapState, string) []pt.Stmt {
+				// the snapshot is keys-at-entry minus keys deleted meanwhile, however many keys are inserted meanwhile
+				return rangeOver(pt.Print(pt.S("visit"), pt.V("k")), pt.CallStmt{C: pt.C("del", m, pt.S(k))}, pt.Assign{Target: pt.Index{X: m, I: pt.S(k2)}, X: pt.N(2)})
+			})
+		}
 		add("alias-set "+k, func(_ mapState, uid string) []pt.Stmt {
 			return []pt.Stmt{pt.InferDecl{Name: "n" + uid, X: m}, pt.Assign{Target: pt.Dot{X: pt.V("n" + uid), Key: k}, X: pt.N(2)}}
 		})
